@@ -51,6 +51,13 @@ func minTTL(ans []dnsfx.AnsRec) (uint32, bool) {
 
 var c16Names = []string{"n1.example", "n2.example", "n3.example"}
 
+// heldResult is a ResolveResult a caller kept, with its rendering at the time it was returned.
+type heldResult struct {
+	name string
+	res  ech.ResolveResult
+	snap string
+}
+
 func TestC16(t *testing.T) {
 	rec := ev.Get("C16")
 	rec.Rule("state machine: fresh Resolver (default cache) against the versioned fake DoH server, package clock replaced through the verif hook. Actions: resolve(one of 3 names), advance the clock (0, 1 s, to an entry's expiry -1/0/+1 s, 299/300/301 s), mutate the zone (new version stamped into every datum; per-record TTLs 0..600 in drawn order; shapes: service RRset with/without target, none, CNAME-only answer, NXDOMAIN), switch an upstream failure (SERVFAIL/REFUSED/HTTP 400) on or off for a (name,type). Reference cache model from the property: an answer is reusable while now < fetch time + min TTL over its answer records (300 s for an empty answer, 0 = not cacheable), failures are never cached. Oracle after every resolve: upstream queries sent == queries the model predicts (no more: served from cache within TTL; no fewer: never stale, failures not cached) and result == model result (every datum carries its zone version). distinct = action-kind sequence; non-trivial = a resolve after an advance >= 1 s")
@@ -66,6 +73,7 @@ func TestC16(t *testing.T) {
 		defer ech.SetTimeNowForVerif(nil)
 		g := &zoneGen{t: t, z: z}
 		var cl []string
+		var held []heldResult
 		ttlMode := 0
 		g.ttl = func() uint32 {
 			switch ttlMode {
@@ -295,6 +303,16 @@ func TestC16(t *testing.T) {
 					}
 					if d := compareOutcome(res, rerr, want); d != "" {
 						ev.Violation(t, "C16", rp, "resolve(%s) at +%v: %s", name, rp["now"], d)
+					}
+					// results handed out earlier are the caller's: later lookups (cache refreshes
+					// included) leave them as they were
+					for _, h := range held {
+						if cur := fmt.Sprintf("%+v", h.res); cur != h.snap {
+							ev.Violation(t, "C16", rp, "the result of an earlier resolve(%s) changed after later lookups:\n was %s\n now %s", h.name, h.snap, cur)
+						}
+					}
+					if rerr == nil {
+						held = append(held, heldResult{name, res, fmt.Sprintf("%+v", res)})
 					}
 					if len(predicted) == 0 {
 						cl = append(cl, "cache_hit")
